@@ -182,3 +182,28 @@ pub fn versions() -> Profile {
     p.weights.extend([(DisconnectShutdown, 1), (DisconnectClose, 1)]);
     p
 }
+
+/// Hostile profile: everything of `mixed`, protocol violations, and arbitrary messages of all
+/// kinds; long bursts.
+pub fn abuse() -> Profile {
+    let mut p = mixed();
+    p.name = "abuse";
+    p.ops = 150;
+    p.conns = (3, 5);
+    p.max_conns_total = 10;
+    p.stale_pct = 25;
+    p.max_burst = 8;
+    p.burst_pct = 55;
+    p.weights.push((Arbitrary, 120));
+    p.weights.push((TooNew, 4));
+    p.weights.push((WrongDirection, 4));
+    p.weights.push((CallDupSerial, 3));
+    p.weights.push((SubscribeNoSerial, 2));
+    p.weights.push((ReplyNonOwner, 4));
+    p.weights.push((ReplyStale, 4));
+    p.weights.push((AbortUnknown, 3));
+    p.weights.push((EmitStranger, 3));
+    p.weights.push((Connect, 12));
+    p.weights.extend([(DisconnectShutdown, 2), (DisconnectClose, 2), (DisconnectHandle, 1), (DisconnectDrop, 2)]);
+    p
+}
